@@ -271,8 +271,16 @@ Crash(p, how) ==
 (***************************************************************************)
 (* Readers: no lock.                                                       *)
 (***************************************************************************)
-ROpen(r) ==
+\* the reader chooses the log file (plans.jsonl, else the legacy events.jsonl) ...
+RPath(r) ==
   /\ pc[r] = "start"
+  /\ pc' = [pc EXCEPT ![r] = "pathed"]
+  /\ Note(r, "step")
+  /\ UNCHANGED <<scn, inodes, cur, tmp, lock, lockfile, sec, snap, pend, outc, rd, now, crashes, torn, acks>>
+
+\* ... and opens it
+ROpen(r) ==
+  /\ pc[r] = "pathed"
   /\ rd' = [rd EXCEPT ![r] = [@ EXCEPT !.inode = cur]]
   /\ pc' = [pc EXCEPT ![r] = "opened"]
   /\ Note(r, "step")
@@ -298,7 +306,7 @@ RScan(r) ==
 
 WStep(p) == Begin(p) \/ MkLock(p) \/ TryLock(p) \/ ReadLog(p) \/ Decide(p) \/ AppendLine(p) \/ WriteTmp(p)
             \/ Rename(p) \/ Unlock(p) \/ NextSection(p)
-RStep(r) == ROpen(r) \/ RProbe(r) \/ RScan(r)
+RStep(r) == RPath(r) \/ ROpen(r) \/ RProbe(r) \/ RScan(r)
 
 Init ==
   /\ scn \in Scenarios
